@@ -219,6 +219,115 @@ theorem remove_compartment_frame (g g' : CGraph ε) (c : Comp ε) (h : removeCom
 theorem subs_maps_flows (g : CGraph ε) (f : ε → ε) (x y : Node ε) :
     (g.mapRates f).getFlow x y = (g.getFlow x y).map f := getFlow_mapRates g f x y
 
+/-- `CompartmentalSystem.subs` as graph surgery (rates replaced, then
+    `relabel_nodes(G, {c: c.subs(σ) for c in _comps(G)}, copy=False)` with the mapping IN NODE ORDER,
+    /repo 459172f), for every well-formed graph, every rate map and every compartment map `f` whose
+    changed images are new to the graph and pairwise distinct (true when names are distinct, a
+    substituted compartment keeping its name):
+    * it succeeds and the graph stays well formed;
+    * node order afterwards — a function of the graph and of WHICH compartments change only: the
+      unchanged nodes in place, then the changed ones re-added at the end, in their original relative
+      order when every compartment changes (keys and values of the mapping are disjoint: networkx visits
+      the nodes in node order) and in REVERSED original order when some compartment is unchanged
+      (networkx then visits the reversed topological order of the mapping);
+    * every flow is kept between the renamed endpoints, its rate mapped pointwise; no flow appears. -/
+theorem subs_spec (g : CGraph ε) (h : g.WF) (rate : ε → ε) (f : Node ε → Node ε)
+    (hfresh : ∀ n ∈ comps g, f n ≠ n → f n ∉ g.nodes)
+    (hinj : (((comps g).filter (fun n => decide (f n ≠ n))).map f).Nodup) :
+    ∃ g', subsGraph g rate f = .ok g' ∧ g'.WF
+      ∧ g'.nodes = g.nodes.filter (fun n => decide (n ∉ (comps g).filter (fun n => decide (f n ≠ n))))
+          ++ (if (comps g).filter (fun n => decide (f n ≠ n)) = comps g
+              then (comps g).filter (fun n => decide (f n ≠ n))
+              else ((comps g).filter (fun n => decide (f n ≠ n))).reverse).map f
+      ∧ ∀ x y, x ∈ g.nodes → y ∈ g.nodes →
+          g'.getFlow (if x ∈ (comps g).filter (fun n => decide (f n ≠ n)) then f x else x)
+                     (if y ∈ (comps g).filter (fun n => decide (f n ≠ n)) then f y else y)
+            = (g.getFlow x y).map rate := by
+  generalize hch : (comps g).filter (fun n => decide (f n ≠ n)) = changed at *
+  have hcn : (comps g).Nodup := comps_nodup h
+  have hwf0 : (g.mapRates rate).WF := WF_mapRates h rate
+  have hn0 : (g.mapRates rate).nodes = g.nodes := nodes_mapRates g rate
+  have hchsub : ∀ n ∈ changed, n ∈ comps g ∧ f n ≠ n := by
+    intro n hn; rw [← hch, List.mem_filter] at hn; exact ⟨hn.1, by simpa using hn.2⟩
+  have hcomps_nodes : ∀ n ∈ comps g, n ∈ g.nodes := by
+    intro n hn; unfold comps at hn; exact (List.mem_filter.mp hn).1
+  -- the order in which the loop visits the keys, and what it amounts to
+  have hloop : ∃ olds, (olds = (if changed = comps g then changed else changed.reverse))
+      ∧ (g.mapRates rate).relabel (subsMapping g f) = some (relabelFold (g.mapRates rate) f olds) := by
+    unfold relabel relabelOrder subsMapping
+    simp only [List.map_map, Function.comp_def, List.map_id']
+    by_cases hall : changed = comps g
+    · refine ⟨changed, by simp [hall], ?_⟩
+      have hc1 : ((comps g).all fun k => !(List.map f (comps g)).contains k) = true := by
+        rw [List.all_eq_true]
+        intro k hk
+        simp only [Bool.not_eq_true', List.contains_eq_mem, decide_eq_false_iff_not, List.mem_map, not_exists, not_and]
+        intro n hn hfn
+        have hnc : n ∈ changed := hall ▸ hn
+        exact hfresh n hn (hchsub n hnc).2 (hfn ▸ hcomps_nodes k hk)
+      simp only [hc1, if_true, Option.map_some, Option.some.injEq]
+      rw [hn0, nodes_filter_comps]
+      refine (relabel_loop_eq _ f (comps g) (comps g) hcn (fun o ho => ho)).trans ?_
+      rw [relabelFold_filter, hch]
+    · refine ⟨changed.reverse, by simp [hall], ?_⟩
+      -- some compartment is unchanged: keys and values overlap
+      have hex : ∃ n0 ∈ comps g, f n0 = n0 := by
+        by_contra hne
+        apply hall
+        rw [← hch]
+        apply List.filter_eq_self.mpr
+        intro n hn
+        simp only [ne_eq, decide_eq_true_eq]
+        intro hfn
+        exact hne ⟨n, hn, hfn⟩
+      obtain ⟨n0, hn0c, hfn0⟩ := hex
+      have hc1 : ((comps g).all fun k => !(List.map f (comps g)).contains k) = false := by
+        rw [List.all_eq_false]
+        refine ⟨n0, hn0c, ?_⟩
+        simp only [Bool.not_eq_true, Bool.not_eq_false', List.contains_eq_mem, decide_eq_true_eq, List.mem_map]
+        exact ⟨n0, hn0c, hfn0⟩
+      have hc2 : ((comps g).map (fun n => (n, f n))).all (fun p => decide (p.2 = p.1) || !((comps g).contains p.2)) = true := by
+        rw [List.all_eq_true]
+        intro p hp
+        obtain ⟨n, hn, rfl⟩ := List.mem_map.mp hp
+        by_cases hfn : f n = n
+        · simp [hfn]
+        · have : f n ∉ comps g := fun hm => hfresh n hn hfn (hcomps_nodes _ hm)
+          simp [hfn, this]
+      simp only [hc1, Bool.false_eq_true, if_false, hc2, if_true, Option.map_some, Option.some.injEq]
+      refine (relabel_loop_eq _ f (comps g) (comps g).reverse hcn (fun o ho => List.mem_reverse.mp ho)).trans ?_
+      rw [relabelFold_filter, List.filter_reverse, hch]
+  obtain ⟨olds, holds, hrel⟩ := hloop
+  -- olds is `changed` up to order
+  have hmem : ∀ n, n ∈ olds ↔ n ∈ changed := by
+    intro n; rw [holds]; split
+    · rfl
+    · exact List.mem_reverse
+  have hchnd : changed.Nodup := by rw [← hch]; exact List.Pairwise.filter _ hcn
+  have holdsnd : olds.Nodup := by
+    rw [holds]; split
+    · exact hchnd
+    · exact (List.reverse_perm changed).nodup_iff.mpr hchnd
+  have hmapnd : (olds.map f).Nodup := by
+    rw [holds]; split
+    · exact hinj
+    · rw [List.map_reverse]; exact (List.reverse_perm _).nodup_iff.mpr hinj
+  obtain ⟨s1, s2, s3⟩ := relabelFold_spec f olds (g.mapRates rate) hwf0 holdsnd
+    (fun o ho => hn0 ▸ hcomps_nodes o (hchsub o ((hmem o).mp ho)).1)
+    (fun o ho => hn0 ▸ hfresh o (hchsub o ((hmem o).mp ho)).1 (hchsub o ((hmem o).mp ho)).2)
+    hmapnd
+  refine ⟨relabelFold (g.mapRates rate) f olds, ?_, s1, ?_, ?_⟩
+  · unfold subsGraph relabelE; rw [hrel]
+  · rw [s2, hn0, ← holds]
+    congr 1
+    apply List.filter_congr
+    intro n _
+    simp [hmem n]
+  · intro x y hx hy
+    have := s3 x y (hn0 ▸ hx) (hn0 ▸ hy)
+    simp only [hmem] at this
+    rw [this, getFlow_mapRates]
+
 /-- Relabelling one compartment by a value not yet in the graph — what `set_dose`, `add_dose`,
     `remove_dose`, `set_lag_time`, `set_bioavailability`, `set_input` do (each is
     `relabel_nodes(G, {c: c.replace(field=…)}, copy=False)`, see the `rfl` examples below) —
@@ -317,6 +426,13 @@ private def exOps : List (Op Int) :=
 example : (runOps exOps).WF := wf_reachable exOps
 example : (orderCompartments (runOps exOps)).Perm (comps (runOps exOps)) := order_is_permutation_reachable exOps
 example : (runOps exOps).nodes.head? = some Node.output := by decide +kernel
+-- the hypotheses of `subs_spec` are satisfiable with some compartments changed and some not
+private def exF (n : Node Int) : Node Int :=
+  if n = .comp cDepot then .comp { cDepot with doses := [.bolus 200 1] }
+  else if n = .comp cPeri then .comp { cPeri with lagTime := 9 } else n
+example : (∀ n ∈ comps (runOps exOps), exF n ≠ n → exF n ∉ (runOps exOps).nodes)
+    ∧ (((comps (runOps exOps)).filter (fun n => decide (exF n ≠ n))).map exF).Nodup
+    ∧ ((comps (runOps exOps)).filter (fun n => decide (exF n ≠ n))).length = 2 := by decide +kernel
 example : ∃ ops : List (Op Int), (comps (runOps ops)).length = 3 ∧ (runOps ops).edges.length = 4 :=
   ⟨exOps, by decide +kernel⟩
 end
